@@ -979,6 +979,143 @@ Lemma lex_total_lemma : forall names s, lex_fuel (S (String.length s)) names s <
 Proof. intros. apply lex_enough. lia. Qed.
 
 (* ================================================================================================ *)
+(* Part 6.  From strings to trees: lexing a spelled token list gives the tokens back                  *)
+(* ================================================================================================ *)
+
+(* a spelling of a token: numbers by their digit string, identifiers by their characters *)
+Inductive ptok : Type := PNum (d : string) | PId (s : string) | PSym (t : token).
+
+Definition tok_of_ptok (p : ptok) : token :=
+  match p with PNum d => TNum (digits_val 0 d) 0 | PId s => TId s | PSym t => t end.
+
+Definition sym_str (t : token) : string :=
+  match t with
+  | TPlus => "+" | TMinus => "-" | TStar => "*" | TSlash => "/" | TCaret => "^" | TEq => "="
+  | TLP => "(" | TRP => ")" | TLB => "[" | TRB => "]" | TComma => "," | TDotT => ".T"
+  | _ => ""
+  end%string.
+
+Definition spell (p : ptok) : string :=
+  match p with PNum d => d | PId s => s | PSym t => sym_str t end.
+
+Fixpoint all_chars (f : ascii -> bool) (s : string) : bool :=
+  match s with EmptyString => true | String c r => f c && all_chars f r end.
+
+Definition is_sym (t : token) : bool :=
+  match t with TNum _ _ | TId _ => false | _ => true end.
+
+Definition wf_ptok (p : ptok) : bool :=
+  match p with
+  | PNum d => match d with EmptyString => false | _ => all_chars is_digit d end
+  | PId s => match s with String c r => is_alpha c && all_chars is_idchar r | EmptyString => false end
+  | PSym t => is_sym t
+  end.
+
+(* tokens separated by single blanks *)
+Fixpoint render (l : list ptok) : string :=
+  match l with
+  | [] => EmptyString
+  | p :: r => (spell p ++ String " " (render r))%string
+  end.
+
+Lemma span_app f d c rest :
+  all_chars f d = true -> f c = false -> span f (d ++ String c rest)%string = (d, String c rest).
+Proof.
+  induction d as [|a d IH]; simpl; intros Hd Hc.
+  - rewrite Hc. reflexivity.
+  - apply andb_true_iff in Hd. destruct Hd as [Ha Hd]. rewrite Ha. rewrite (IH Hd Hc). reflexivity.
+Qed.
+
+Lemma alpha_char c : is_alpha c = true -> is_digit c = false /\ is_space c = false /\ is_idchar c = true.
+Proof.
+  destruct c as [b0 b1 b2 b3 b4 b5 b6 b7].
+  destruct b0, b1, b2, b3, b4, b5, b6, b7; simpl; intros H; try discriminate H; repeat split; reflexivity.
+Qed.
+
+Lemma digit_char c : is_digit c = true -> is_space c = false /\ is_idchar c = true.
+Proof.
+  destruct c as [b0 b1 b2 b3 b4 b5 b6 b7].
+  destruct b0, b1, b2, b3, b4, b5, b6, b7; simpl; intros H; try discriminate H; repeat split; reflexivity.
+Qed.
+
+Lemma length_app_s (a b : string) : String.length (a ++ b)%string = String.length a + String.length b.
+Proof. induction a as [|c a IH]; simpl; [reflexivity | rewrite IH; reflexivity]. Qed.
+
+Lemma digits_val_nil acc : digits_val acc EmptyString = acc.
+Proof. reflexivity. Qed.
+
+Lemma lex_number_spelled d rest :
+  all_chars is_digit d = true -> d <> EmptyString ->
+  lex_number (d ++ String " " rest)%string = Some (TNum (digits_val 0 d) 0, String " " rest).
+Proof.
+  intros Hd Hne. unfold lex_number.
+  rewrite (span_app is_digit d " "%char rest Hd eq_refl).
+  simpl. reflexivity.
+Qed.
+
+Lemma lex_spelled : forall l n, forallb wf_ptok l = true -> String.length (render l) < n ->
+  lex_fuel n [] (render l) = LOk (map tok_of_ptok l).
+Proof.
+  induction l as [|p r IH]; intros n Hwf Hn.
+  - destruct n; [simpl in Hn; lia | reflexivity].
+  - simpl in Hwf. apply andb_true_iff in Hwf. destruct Hwf as [Hp Hr].
+    simpl render in *. rewrite length_app_s in Hn. simpl in Hn.
+    destruct n as [|n]; [lia|].
+    (* after the token: one blank, then the rest *)
+    assert (Hblank : forall m, String.length (render r) + 1 < m ->
+              lex_fuel m [] (String " " (render r)) = LOk (map tok_of_ptok r)).
+    { intros m Hm. destruct m as [|m]; [lia|]. simpl. apply IH; [assumption | lia]. }
+    destruct p as [d|s|t]; simpl in Hp; simpl spell in *.
+    + (* number *)
+      destruct d as [|c d']; [discriminate|].
+      assert (Hall : all_chars is_digit (String c d') = true) by exact Hp.
+      simpl in Hp. apply andb_true_iff in Hp. destruct Hp as [Hc Hd'].
+      destruct (digit_char c Hc) as [Hsp _].
+      change ((String c d' ++ String " " (render r))%string) with (String c (d' ++ String " " (render r))%string).
+      cbn [lex_fuel]. rewrite Hsp. cbn [match_name]. rewrite Hc.
+      change (String c (d' ++ String " " (render r))%string) with ((String c d' ++ String " " (render r))%string).
+      rewrite (lex_number_spelled (String c d') (render r) Hall ltac:(discriminate)).
+      rewrite Hblank; [reflexivity | simpl in Hn; lia].
+    + (* identifier *)
+      destruct s as [|c s']; [discriminate|].
+      apply andb_true_iff in Hp. destruct Hp as [Hc Hs'].
+      destruct (alpha_char c Hc) as (Hdg & Hsp & Hid).
+      change ((String c s' ++ String " " (render r))%string) with (String c (s' ++ String " " (render r))%string).
+      cbn [lex_fuel]. rewrite Hsp. cbn [match_name]. rewrite Hdg, Hc.
+      change (String c (s' ++ String " " (render r))%string) with ((String c s' ++ String " " (render r))%string).
+      assert (Hall : all_chars is_idchar (String c s') = true) by (simpl; rewrite Hid, Hs'; reflexivity).
+      rewrite (span_app is_idchar (String c s') " "%char (render r) Hall eq_refl).
+      rewrite Hblank; [reflexivity | simpl in Hn; lia].
+    + (* symbol *)
+      destruct t; try discriminate Hp; simpl sym_str in *; simpl in Hn;
+        cbn [lex_fuel append]; simpl; rewrite Hblank; try reflexivity; lia.
+Qed.
+
+Lemma lex_render_lemma : forall l, forallb wf_ptok l = true -> lex [] (render l) = Some (map tok_of_ptok l).
+Proof.
+  intros l H. unfold lex. rewrite (lex_spelled l _ H (Nat.lt_succ_diag_r _)). reflexivity.
+Qed.
+
+(* string level: every spelling of the canonical token list of a parses back to a *)
+Theorem parse_show_spelled_lemma : forall a l,
+  forallb wf_ptok l = true -> map tok_of_ptok l = show 0 a -> parse_code [] (render l) = Some a.
+Proof.
+  intros a l Hwf Hl. unfold parse_code. rewrite (lex_render_lemma l Hwf). rewrite Hl.
+  apply parse_show_toks_lemma.
+Qed.
+
+Local Open Scope string_scope.
+
+Example ex_spelled :
+  let a := ABin ODiv (AVar "a") (ABin OMul (AVar "b_1") (ABin OPow (ANeg (AVar "c")) (ANum 12 0))) in
+  let l := [PId "a"; PSym TSlash; PSym TLP; PId "b_1"; PSym TStar; PSym TLP; PSym TMinus; PId "c"; PSym TRP;
+            PSym TCaret; PNum "12"; PSym TRP] in
+  forallb wf_ptok l = true /\ map tok_of_ptok l = show 0 a /\ render l = "a / ( b_1 * ( - c ) ^ 12 ) " /\
+  parse_code [] (render l) = Some a.
+Proof. vm_compute. repeat split; reflexivity. Qed.
+Local Close Scope string_scope.
+
+(* ================================================================================================ *)
 (* Part 5.  Non-vacuity: the reader on concrete strings                                              *)
 (* ================================================================================================ *)
 Local Open Scope string_scope.
